@@ -93,3 +93,17 @@ Theorem C05_checker_sound :
   forall shape thr merge obs, C05_checkb shape thr merge obs = true -> C05_spec shape thr merge obs.
 Proof. exact C05_checkb_sound. Qed.
 Print Assumptions C05_checker_sound.
+
+Theorem C05_grad_checker_sound :
+  forall obs_p obs_g, C05_grad_checkb obs_p obs_g = true ->
+  Forall2 (fun p g => Permutation (view_offsets p) (view_offsets g) /\ vsizes p = vsizes g) obs_p obs_g.
+Proof. exact C05_grad_checkb_sound. Qed.
+Print Assumptions C05_grad_checker_sound.
+
+Theorem C05_update_checker_sound :
+  forall bl bases storage, update_okb bl bases storage = true ->
+  length (scatter bl (update_dirs bl bases)) = length storage
+  /\ length bl = length bases
+  /\ Forall (fun ov => 0 <= fst ov /\ nth (Z.to_nat (fst ov)) storage (-1) = snd ov) (scatter bl (update_dirs bl bases)).
+Proof. exact update_okb_sound. Qed.
+Print Assumptions C05_update_checker_sound.
